@@ -371,4 +371,44 @@ theorem named_subs_real_partial (g : NG) (isB : String → Bool) (x : V) :
   have := blockIdx_partition g.inputs isB 0
   rwa [List.range_eq_range']
 
+/-- `List.lookup` only depends on the set of pairs when the keys are distinct -/
+theorem lookup_perm {β : Type} (k : String) {l1 l2 : List (String × β)} (h : l1.Perm l2)
+    (hn : (l1.map (·.1)).Nodup) : l1.lookup k = l2.lookup k := by
+  induction h with
+  | nil => rfl
+  | cons x _ ih =>
+    obtain ⟨a, v⟩ := x
+    simp only [List.map_cons, List.nodup_cons] at hn
+    simp only [List.lookup_cons]
+    rw [ih hn.2]
+  | swap x y l =>
+    obtain ⟨a, v⟩ := x
+    obtain ⟨b, u⟩ := y
+    simp only [List.map_cons, List.nodup_cons, List.mem_cons, not_or] at hn
+    have hab : b ≠ a := hn.1.1
+    simp only [List.lookup_cons]
+    by_cases h1 : k = a
+    · subst h1
+      have : (k == b) = false := by simpa using (fun h => hab h.symm)
+      simp [this]
+    · have : (k == a) = false := by simpa using h1
+      simp [this]
+  | trans h12 _ ih1 ih2 =>
+    rw [ih1 hn, ih2 ((h12.map _).nodup_iff.mp hn)]
+
+/-- **subsReal_perm**: `_eager_subs_real` must not depend on the order in which the substitution pairs arrive. -/
+theorem subsReal_perm (g : NG) (s1 s2 : List (String × List Rat)) (h : s1.Perm s2)
+    (hn : (s1.map (·.1)).Nodup) : g.subsReal s1 = g.subsReal s2 := by
+  have hf := h.filter (fun p => hasKey p.1 g.inputs)
+  have hnf : ((s1.filter fun p => hasKey p.1 g.inputs).map (·.1)).Nodup :=
+    hn.sublist ((List.filter_sublist).map _)
+  have hl : ∀ k, (s1.filter fun p => hasKey p.1 g.inputs).lookup k
+      = (s2.filter fun p => hasKey p.1 g.inputs).lookup k := fun k => lookup_perm k hf hnf
+  simp only [NG.subsReal, hl]
+
+/-- the hypothesis of `subsReal_perm` is satisfiable, and the two orders really are different lists -/
+example : ([("x", [1]), ("y", [(2 : Rat)])].map (·.1)).Nodup ∧
+    [("x", [1]), ("y", [(2 : Rat)])].Perm [("y", [2]), ("x", [1])] := by
+  refine ⟨by decide, List.Perm.swap _ _ _⟩
+
 end FV.Props.C12
